@@ -7,6 +7,8 @@ Line-protocol driver for the first-order model (property C01).
         -> ok smax=<n> rows=<n> bLead=<q> E1=<q> E2=<q> E3=<q> E4=<q>,<q>,… W=<q> scale=<q>      (max-abs of every block)
   stab <k> T
         -> T | F                                        (‖T^(2^k)‖∞ < 1, exactly)
+  sqtri T Ua Ta P Pa K Ka X Xa
+        -> ok TU=<q> P=<q> K=<q> X=<q> scale=<q>       (max-abs of T Ua - Ua Ta, P - Ua Pa, K - Ua Ka, X - Ua Xa)
   sim  <dev 0/1> <split 0/1> <first> <last> A <n> q s … M <n> q s …  T K P X J Ru Z H D x u v w y
         -> x <matrix> y <matrix>
 -/
@@ -84,6 +86,16 @@ def doStab (ws : List String) : Option String := do
   if T.rows != T.cols || k > 12 then none
   pure (showBool (stableCert T k))
 
+def doSqTri (ws : List String) : Option String := do
+  let (ms, _) ← pMats 9 ws
+  match ms with
+  | [T, Ua, Ta, Pm, Pa, K, Ka, X, Xa] =>
+    if T.rows != T.cols || Ua.rows != T.rows || Ua.cols != Ta.rows || Ta.rows != Ta.cols then none
+    let (tu, p, k, x, sc) := squareTriangularResiduals T Ua Ta Pm Pa K Ka X Xa
+    pure ("ok TU=" ++ QMat.showRat tu ++ " P=" ++ QMat.showRat p ++ " K=" ++ QMat.showRat k ++ " X=" ++ QMat.showRat x ++
+      " scale=" ++ QMat.showRat sc)
+  | _ => none
+
 def doSim (ws : List String) : Option String := do
   let (dev, ws) ← pNat ws
   let (split, ws) ← pNat ws
@@ -108,6 +120,7 @@ def step (line : String) : String :=
     | "vec" :: ws => doVec ws
     | "cert" :: ws => doCert ws
     | "stab" :: ws => doStab ws
+    | "sqtri" :: ws => doSqTri ws
     | "sim" :: ws => doSim ws
     | _ => none
   r.getD "bad-op"
